@@ -22,7 +22,11 @@ Before(i, j) == Tr.w[i] > Tr.w[j] \/ (Tr.w[i] = Tr.w[j] /\ i < j)
 FirstEligible == {i \in Slots : Eligible(i) /\ \A j \in Slots : Before(j, i) => ~Eligible(j)}
 MaxDeficit == {i \in Slots : Eligible(i) /\ \A j \in Slots : Eligible(j) =>
                      (Ahead(i) > Ahead(j) \/ (Ahead(i) = Ahead(j) /\ (i = j \/ Before(i, j))))}
-RulePick == IF RuleName = "first" THEN FirstEligible ELSE MaxDeficit
+\* earliest deadline first with ties left open (see Strategy.tla)
+Earlier(i, j) == (W - d[i]) * Tr.w[j] < (W - d[j]) * Tr.w[i]
+Tied(i, j) == (W - d[i]) * Tr.w[j] = (W - d[j]) * Tr.w[i]
+EdfAnyTie == {i \in Slots : Eligible(i) /\ \A j \in Slots : Eligible(j) => (Earlier(i, j) \/ Tied(i, j))}
+RulePick == CASE RuleName = "first" -> FirstEligible [] RuleName = "maxdef" -> MaxDeficit [] OTHER -> EdfAnyTie
 
 Init == tid \in 1..Len(Batch.traces) /\ l = 1 /\ d = [i \in 1..Len(Batch.traces[tid].w) |-> 0] /\ drift = 0
 \* one event = one answered request; "fail" events (selection raised) are never accepted
